@@ -6,7 +6,7 @@ props=$(python3 -c "import json;print(' '.join(c['property_id'] for c in json.lo
 mkdir -p matrix_logs
 for d in seeded/M*/; do
   id=$(basename $d)
-  git -C $R checkout -q -- . ; git -C $R apply $d/patch.diff || { echo "$id: patch does not apply"; continue; }
+  git -C $R checkout -q -- . ; git -C $R apply "$(pwd)/${d}patch.diff" || { echo "$id: patch does not apply"; continue; }
   line="$id"
   for p in $props; do
     ./check $p $T > matrix_logs/${id}_$p.log 2>&1; rc=$?
